@@ -87,6 +87,15 @@ def Ctx.addOption (c : Ctx) (name : List Nat) (alias : Nat) : Option Ctx := do
   let ix2 ← if !name.isEmpty then insert ix1 name c.nOpts else some ix1
   pure { index := ix2, nOpts := c.nOpts + 1 }
 
+/-- the context a refused `insertOption` leaves behind: when the short name was new and the long name taken, the short-name entry
+    (numbered like the option that was not added) has already been entered and stays; when the short name was taken nothing changed -/
+def Ctx.afterRefused (c : Ctx) (alias : Nat) : Ctx :=
+  if alias != 0 then
+    match insert c.index [45, alias] c.nOpts with
+    | some ix1 => { c with index := ix1 }
+    | none => c
+  else c
+
 /-- `addAlias(aliasName, begin() + opt)` -/
 def Ctx.addAlias (c : Ctx) (aliasName : List Nat) (opt : Nat) : Option Ctx :=
   if opt < c.nOpts ∧ !aliasName.isEmpty then (insert c.index aliasName opt).map (fun ix => { c with index := ix })
